@@ -1,5 +1,6 @@
 import ComposeVerif.Lemmas.Extends
 import ComposeVerif.Lemmas.ExtendsFuel
+import ComposeVerif.Lemmas.ExtendsComplete
 import ComposeVerif.Neg.C05
 /-!
 # C05 — extends yields base-then-local override, order-independent, cycle-safe
@@ -201,6 +202,37 @@ theorem inherited_paths_anchor {E : Env} {order : List String} {dict out S svc :
     Flat.step h1 h2 h3 hbm (Flat.leaf hb hbe) hm
   rw [hv, hf.functional this]
 
+/-- **acyclic ⇒ accepted (the provable part).**  If every service has a finite chain (`FlatK`:
+all bases and files exist, every merge succeeds) *and the tracker keys recorded along each chain —
+`(referenced file or main file, extending service's name)` — are pairwise distinct*, then
+`ApplyExtends` succeeds in every visit order.  Without the distinctness hypothesis the statement is
+false on the unchanged tree (`Neg.applyExtends_perm_fails`). -/
+theorem acyclic_ok_partial {E : Env} {order : List String} {dict S : KVs}
+    (hS : lookup "services" dict = some (.map S)) (hord : Visits order S)
+    (hch : ∀ n, lookup n S ≠ none → ∃ ks v, FlatK E S n ks v ∧ ks.Nodup) :
+    ∃ out, applyExtendsOrd E order dict = .ok out := by
+  have hall : ∀ n ∈ order, ∃ ks v, FlatK E S n ks v ∧ ks.Nodup ∧ ks.length < fuelFor E S := by
+    intro n hn
+    obtain ⟨ks, v, hk, hnd⟩ := hch n ((hord n).mp hn)
+    refine ⟨ks, v, hk, hnd, ?_⟩
+    have := nodup_length_le ks _ hnd (hk.keys_sub (KeysSub.self E S))
+    simp only [fuelFor]; omega
+  obtain ⟨R, hR, _⟩ := applyAll_complete E (fuelFor E S) order S S (Inv.refl E S) hall
+  exact ⟨Val.insert "services" (.map R) dict, by simp [applyExtendsOrd, hS, hR]⟩
+
+/-- with distinct tracker keys the outcome does not depend on the visit order at all -/
+theorem applyExtends_perm_distinct {E : Env} {order₁ order₂ : List String} {dict S : KVs}
+    (hS : lookup "services" dict = some (.map S)) (hnn : NoNull S) (hfs : NoNullFS E)
+    (h₁ : Visits order₁ S) (h₂ : Visits order₂ S)
+    (hch : ∀ n, lookup n S ≠ none → ∃ ks v, FlatK E S n ks v ∧ ks.Nodup) :
+    ∃ out₁ out₂ R₁ R₂, applyExtendsOrd E order₁ dict = .ok out₁ ∧ applyExtendsOrd E order₂ dict = .ok out₂ ∧
+      lookup "services" out₁ = some (.map R₁) ∧ lookup "services" out₂ = some (.map R₂) ∧
+      ∀ n, lookup n R₁ = lookup n R₂ := by
+  obtain ⟨out₁, r₁⟩ := acyclic_ok_partial hS h₁ hch
+  obtain ⟨out₂, r₂⟩ := acyclic_ok_partial hS h₂ hch
+  obtain ⟨R₁, R₂, a, b, c⟩ := applyExtends_perm_partial hS hnn hfs h₁ h₂ r₁ r₂
+  exact ⟨out₁, out₂, R₁, R₂, r₁, r₂, a, b, c⟩
+
 /-! ## non-vacuity: the hypotheses of the theorems above are satisfiable by a non-trivial input
 (the two-file model of `Neg/C05.lean`, visited in the order that succeeds) -/
 
@@ -270,5 +302,26 @@ example : FuelFree Neg.env := by
 example : Cyclic Neg.env ([("a", .map [("extends", .str "a")])], "a") :=
   Or.inl (Reach.one ⟨[("extends", .str "a")], .str "a", none, by simp [Val.lookup], by simp [Val.lookup], rfl,
     by simp [baseMap, Val.lookup]⟩)
+
+/-- a two-step cross-file chain with distinct tracker keys (hypothesis of `acyclic_ok_partial`) -/
+example : ∃ ks v, FlatK Neg.env
+    [("t", .map [("extends", .map [("service", .str "b"), ("file", .str "o.yaml")])])] "t" ks v ∧ ks.Nodup := by
+  have hd : FlatK Neg.env [("b", .map [("extends", .str "d"), ("cap_add", .str "CAP_BO")]), ("d", .map [("image", .str "id")])]
+      "d" [] (.map [("image", .str "id")]) :=
+    FlatK.leaf (by simp [Val.lookup]) (by simp [Val.lookup])
+  have hb := FlatK.step (E := Neg.env) (n := "b") (file := none) (e := .str "d") (ref := "d")
+    (S := [("b", .map [("extends", .str "d"), ("cap_add", .str "CAP_BO")]), ("d", .map [("image", .str "id")])])
+    (S' := [("b", .map [("extends", .str "d"), ("cap_add", .str "CAP_BO")]), ("d", .map [("image", .str "id")])])
+    (svc := [("extends", .str "d"), ("cap_add", .str "CAP_BO")])
+    (m := [("extends", .str "d"), ("cap_add", .str "CAP_BO")] ++ [("image", .str "id")])
+    (by simp [Val.lookup]) (by simp [Val.lookup]) rfl (by simp [baseMap, Val.lookup]) hd rfl
+  have ht := FlatK.step (E := Neg.env) (n := "t") (file := some "o.yaml") (ref := "b")
+    (S := [("t", .map [("extends", .map [("service", .str "b"), ("file", .str "o.yaml")])])])
+    (e := .map [("service", .str "b"), ("file", .str "o.yaml")])
+    (svc := [("extends", .map [("service", .str "b"), ("file", .str "o.yaml")])])
+    (m := [("extends", .map [("service", .str "b"), ("file", .str "o.yaml")])] ++ _)
+    (by simp [Val.lookup]) (by simp [Val.lookup]) rfl
+    (by simp [baseMap, fileServices, fsLookup, Neg.env, Neg.oYaml, Val.lookup]) hb rfl
+  exact ⟨_, _, ht, by decide⟩
 
 end CV.Extends
